@@ -171,8 +171,10 @@ def r2(repo, chk):
             st = st._parent
         sibs = st._parent.body if st in getattr(st._parent, "body", []) else getattr(st._parent, "orelse", [])
         nxt = sibs[sibs.index(st) + 1] if st in sibs and sibs.index(st) + 1 < len(sibs) else None
-        ok = ok and isinstance(nxt, ast.Return)
-        chk.ob("R2", f"{name}: _close_end() is guarded by a condition it invalidates and followed by return", ok, f"guards {at}", fn.loc(c))
+        # nothing else happens on that path: a return follows, or no other statement that calls anything is reachable
+        later_calls = [x for x in fn.stmts() if x is not st and any(isinstance(y, ast.Call) for y in ast.walk(x)) and not isinstance(x, (ast.If, ast.While, ast.For, ast.Try)) and x in fn.cfg.begin and st in fn.cfg.done and fn.cfg.reaches(fn.cfg.done[st], fn.cfg.begin[x])]
+        ok = ok and (isinstance(nxt, ast.Return) or not later_calls)
+        chk.ob("R2", f"{name}: _close_end() is guarded by a condition it invalidates and nothing else runs after it", ok, f"guards {at}; reachable afterwards: {[norm(x)[:40] for x in later_calls[:3]]}", fn.loc(c))
     for fn in _conn_fns(repo):
         for st, t, v in fn.assigns(chain="self._close_event"):
             if fn.qual.endswith(".__init__"):
@@ -326,7 +328,8 @@ def r4(repo, chk):
     for st, t, v in cb.assigns(chain="self._close_at"):
         if isinstance(v, ast.BinOp) and isinstance(v.op, ast.Add) and norm(v.left) == "now" and isinstance(v.right, ast.BinOp) and isinstance(v.right.op, ast.Mult):
             a, b = v.right.left, v.right.right
-            k = repo.const(m, a) if norm(b) == "self._loss.get_probe_timeout()" else (repo.const(m, b) if norm(a) == "self._loss.get_probe_timeout()" else Unknown)
+            pt = "self._loss.get_probe_timeout()"
+            k = repo.const(m, a) if cb.expand(b, 2) == pt else (repo.const(m, b) if cb.expand(a, 2) == pt else Unknown)
             ok = k == 3
     chk.ob("R4", "_close_begin: the closing / draining period is now + 3 * probe timeout", ok, "", cb.loc(cb.node))
     sts = {norm(c.args[0]) for c in cb.calls(name="self._set_state") if c.args}
